@@ -13,7 +13,9 @@ EXTENDS Emit
 
 (* sizes beyond the small grid: loops unrolled or special-cased for a size show only here *)
 Big == {<<5>>, <<7>>, <<4, 5>>, <<5, 1>>, <<1, 6>>, <<2, 4, 3>>, <<4, 1, 2, 5>>}
-Grid == (IF Thorough THEN Shapes(4, 3) \cup Shapes(6, 2) ELSE Shapes(3, 2) \cup Shapes(2, 3) \cup {<<2, 1, 2, 1, 2>>, <<1, 1, 1, 1, 1, 2>>, <<3, 1, 2, 2>>}) \cup Big
+(* thresholds: work is sometimes split or blocked once a dimension or an element count passes 8, 16, 64, 512 *)
+Large == {<<17>>, <<18, 2>>, <<2, 19>>, <<33>>, <<9, 2>>, <<3, 11>>}
+Grid == Large \cup (IF Thorough THEN Shapes(4, 3) \cup Shapes(6, 2) ELSE Shapes(3, 2) \cup Shapes(2, 3) \cup {<<2, 1, 2, 1, 2>>, <<1, 1, 1, 1, 1, 2>>, <<3, 1, 2, 2>>}) \cup Big
 GridSeq == SetToSeq(Grid)
 
 Ks == <<QI(2), QI(-1), Half, Zero, Q(-3, 2), One>>        \* 1 and 0: identity / annihilating parameters invite shortcuts
@@ -51,7 +53,8 @@ Build(d) ==
          MkCase("c03", d[2], <<In("a", d[3], FALSE)>>, <<UDom(d[2], d[4])>>,
                 <<Ins(d[2], [k |-> d[4]], <<1>>)>>, <<2>>, 0, TRUE)
     [] d[1] = "s" ->
-         MkCase("c03", d[2], <<In("a", d[3], FALSE), In("b", d[3], FALSE)>>, <<"ties,wide", "ties,wide">>,
+         MkCase("c03", d[2], <<In("a", d[3], FALSE), In("b", d[3], FALSE)>>,
+                IF d[2] \in {"eq", "ne"} THEN <<"ties,wide", "ties,wide">> ELSE <<"ties,wide,tiny", "ties,wide,tiny">>,   \* orderings are exact also between denormal-sized values
                 <<Ins(d[2], NoPar, <<1, 2>>)>>, <<3>>, 0, TRUE)
     [] d[1] = "b" ->
          LET t == BTarget(d[3], d[4])
